@@ -309,17 +309,30 @@ impl<'a> Interpreter<'a> {
                 ByteCode::MkDict(size) => {
                     let mut map = HashMap::new();
 
-                    for _ in 0..*size {
-                        let key = if let CelValue::String(key) = stack.pop_val()? {
-                            key
-                        } else {
-                            return Err(CelError::value("Only strings can be used as Object keys"));
-                        };
+                    let mut bad_key = false;
 
-                        map.insert(key, stack.pop_val()?);
+                    for _ in 0..*size {
+                        let key = stack.pop_val()?;
+                        let value = stack.pop_val()?;
+
+                        // Entries come off the stack last-to-first; for a repeated key the
+                        // last entry in the source wins, as it does when the literal is folded.
+                        if let CelValue::String(key) = key {
+                            map.entry(key).or_insert(value);
+                        } else {
+                            bad_key = true;
+                        }
                     }
 
-                    stack.push_val(map.into());
+                    // An error value like any other failing operation (and like the folded
+                    // literal), not an abort of the whole program.
+                    if bad_key {
+                        stack.push_val(CelValue::value_error(
+                            "Only strings can be used as Object keys",
+                        ));
+                    } else {
+                        stack.push_val(map.into());
+                    }
                 }
                 ByteCode::Index => {
                     let index = stack.pop_val()?;
